@@ -9,6 +9,7 @@ import (
 	"fmt"
 	"math"
 	"math/big"
+	"strings"
 
 	"github.com/zclconf/go-cty/cty"
 	"github.com/zclconf/go-cty/cty/convert"
@@ -123,6 +124,22 @@ func init() {
 		Prop: "C06", Name: "ctor/all", Quick: 60000, Thorough: 600000, Shards: 4,
 		Rule: "a value specification of any kind (depth <= 3; nulls, refined unknowns, DynamicVal, marks at every depth, capsules, NFC-changing strings/keys/attribute names) built through the public constructors (BoolVal ... ObjectVal, SetVal, NullVal, UnknownVal + Refine().NewValue(), Mark); then UnmarkDeep, UnknownAsNull and a rebuild through AsValueSlice/AsValueMap; " + ntRule,
 		Gen: func(t *rapid.T) spec.V {
+			if rapid.IntRange(0, 27).Draw(t, "tieset") == 14 {
+				// a set of numbers in which one real number is held at two
+				// precisions (a float64 and the same value held at 64 bits): the
+				// two have different shortest decimal texts, so they are either two
+				// members or one - never two members the library itself calls equal
+				v := spec.V{T: spec.Set(spec.Number), St: spec.Known}
+				fs := rapid.Permutation([]float64{0.1, 0.2, 0.3, 1e-7, -0.1, 2.675, 1.1}).Draw(t, "tiefloats")
+				for _, f := range fs[:rapid.IntRange(1, 2).Draw(t, "nties")] {
+					exact := strings.TrimRight(new(big.Float).SetFloat64(f).Text('f', 1100), "0")
+					v.Elems = append(v.Elems, spec.KnownNum(spec.NFloat(f)), spec.KnownNum(spec.Num{Route: "big", Text: exact, Prec: 64}))
+				}
+				if rapid.Bool().Draw(t, "nested") {
+					return spec.V{T: spec.T{K: spec.KTuple}, St: spec.Known, Elems: []spec.V{v, spec.KnownStr("k")}}.Retype()
+				}
+				return v
+			}
 			if rapid.IntRange(0, 11).Draw(t, "capsuleset") == 6 {
 				// a set of values of a capsule type without a hash key: all its
 				// members share one hash bucket
